@@ -137,11 +137,54 @@ theorem c05_pac_direct_entry {s : Bytes} (h : trimSpace s = [] ∨ trimSpace s =
   unfold parseProxy
   rcases h with h | h <;> simp [h]
 
-/-- an entry `<keyword> <host:port>`: unparsable host:port ⇒ error; otherwise the keyword decides -/
+/-- an entry `<keyword> <host:port>`: unparsable host:port ⇒ error; an empty host, a blank or tab in
+    the host, or a port that is not a decimal number ≤ 65535 ⇒ error (whatever the keyword);
+    otherwise the keyword decides -/
 theorem c05_pac_entry {s kw hp : Bytes} (hs : trimSpace s = kw ++ 32 :: hp) (hkw : (32 : UInt8) ∉ kw)
     (hnd : kw ++ 32 :: hp ≠ bs "DIRECT") :
-    parseProxy s = (netSplitHostPort hp).map fun x => some { mode := parseMode kw, host := x.1, port := x.2 } := by
+    parseProxy s = (netSplitHostPort hp).bind fun x =>
+      if validHost x.1 && validPort x.2 then some (some { mode := parseMode kw, host := x.1, port := x.2 }) else none := by
   rw [parseProxy_entry hs hkw, if_neg hnd]
+
+/-- a first entry whose host is empty or holds a blank/tab, or whose port is not a number in
+    0…65535, fails the request — it is never handed on as a proxy (nor read as DIRECT under an
+    unknown keyword) -/
+theorem c05_pac_invalid_hostport_error {s kw hp h p : Bytes} (hs : trimSpace s = kw ++ 32 :: hp) (hkw : (32 : UInt8) ∉ kw)
+    (hnd : kw ++ 32 :: hp ≠ bs "DIRECT") (hsp : netSplitHostPort hp = some (h, p))
+    (hbad : validHost h = false ∨ validPort p = false) : parseProxy s = none := by
+  rw [c05_pac_entry hs hkw hnd, hsp]
+  rcases hbad with hb | hb <;> simp [hb]
+
+/-- every entry that parses as a proxy has a usable address: a non-empty host without blanks and a
+    numeric port -/
+theorem c05_pac_parsed_hostport_valid {s : Bytes} {e : PacProxy} (h : parseProxy s = some (some e)) :
+    validHost e.host = true ∧ validPort e.port = true := by
+  unfold parseProxy at h
+  simp only [] at h
+  split at h
+  · cases h
+  · split at h
+    · cases h
+    · split at h
+      · cases h
+      · split at h
+        · cases h
+        · rename_i hh pp _
+          split at h
+          · cases h
+          · rename_i hv
+            split at h
+            · cases h
+            · rename_i hp
+              simp only [Option.some.injEq] at h
+              subst h
+              exact ⟨by simpa using hv, by simpa using hp⟩
+
+example : validPort (bs "3128") = true ∧ validPort (bs "0080") = true ∧ validPort (bs "65535") = true ∧
+    validPort (bs "65536") = false ∧ validPort (bs "") = false ∧ validPort (bs "abc") = false ∧
+    validPort (bs "+80") = false ∧ validPort (bs "8_0") = false ∧
+    validHost (bs "a.test") = true ∧ validHost (bs "") = false ∧ validHost (bs " a.test") = false := by
+  with_unfolding_all decide
 
 /-- a keyword alone (no host:port) ⇒ error -/
 theorem c05_pac_missing_hostport {s : Bytes} (hne : trimSpace s ≠ []) (hd : trimSpace s ≠ bs "DIRECT")
@@ -181,7 +224,8 @@ example :
     pacFirst (bs "FOO a.test:1") = some (some ⟨.direct, bs "a.test", bs "1"⟩) ∧
     pacFirst (bs " HTTPS [::1]:3129 ;x") = some (some ⟨.https, bs "::1", bs "3129"⟩) ∧
     pacFirst (bs "PROXY a.test") = none ∧ pacFirst (bs "PROXY") = none ∧ pacFirst (bs "direct") = none ∧
-    pacFirst (bs "PROXY  a.test:1") = some (some ⟨.proxy, bs " a.test", bs "1"⟩) ∧
+    pacFirst (bs "PROXY  a.test:1") = none ∧ pacFirst (bs "PROXY a.test:") = none ∧
+    pacFirst (bs "PROXY a.test:99999") = none ∧ pacFirst (bs "FOO a.test:abc") = none ∧ pacFirst (bs "PROXY :80") = none ∧
     pacFirst (bs "DIRECT") = some none ∧ pacFirst (bs " ;PROXY a.test:1") = some none := by
   with_unfolding_all decide
 
@@ -406,6 +450,254 @@ theorem c05_connect_dials_route (cfg : Cfg) (rc : RouteCfg) (authority : Bytes) 
               simp only [h1, h2, h3, if_true, Bool.false_eq_true, if_false, ConnectOutcome.tunnel.injEq, Except.ok.injEq] at hr hp
               subst hr hp; rfl
             · cases hr
+
+/-! ## E. PAC scripts that decide on the whole URL: the answer for THAT request's URL routes it -/
+
+/-- the first rule whose condition holds for (url, host) decides -/
+theorem c05_url_rule_first_match {pre post : List UrlRule} {r : UrlRule} {dflt : PacResult} {url host : Bytes}
+    (hpre : ∀ x ∈ pre, x.cond.holds url host = false) (hr : r.cond.holds url host = true) :
+    UrlScript.eval { rules := pre ++ r :: post, dflt := dflt } url host = r.result := by
+  unfold UrlScript.eval
+  simp only [find?_append_of_none (p := fun x : UrlRule => x.cond.holds url host) r post hpre hr]
+
+/-- no condition holds ⇒ the script's final `return` -/
+theorem c05_url_default {s : UrlScript} {url host : Bytes} (h : ∀ x ∈ s.rules, x.cond.holds url host = false) :
+    s.eval url host = s.dflt := by
+  unfold UrlScript.eval
+  have : s.rules.find? (fun r => r.cond.holds url host) = none := List.find?_eq_none.mpr (by simpa using h)
+  rw [this]
+
+/-- a host table is the URL script whose conditions are `host == k`: it never looks at the URL -/
+theorem c05_host_table_is_url_script (p : PacScript) (url host : Bytes) :
+    (UrlScript.ofTable p).eval url host = p.eval host := by
+  unfold UrlScript.eval PacScript.eval UrlScript.ofTable
+  have h := ofTable_find? p.table url host
+  simp only [] at h ⊢
+  cases h1 : List.find? (fun r : UrlRule => r.cond.holds url host) (p.table.map fun e => { cond := .hostIs e.1, result := e.2 }) <;>
+    cases h2 : List.find? (fun e => e.1 == host) p.table <;> simp_all
+
+/-- CONNECT: the script is asked about `//host:port` (a URL without scheme and path) -/
+theorem c05_connect_url (authority : Bytes) :
+    RouteReq.url { connect := true, urlHost := authority } = bs "//" ++ authority := by
+  simp [RouteReq.url]
+
+/-- a forwarded request: the script is asked about `scheme://authority/path?query` -/
+theorem c05_request_url (scheme authority path : Bytes) (query : Option Bytes) (hs : scheme ≠ []) :
+    RouteReq.url { scheme := scheme, urlHost := authority, path := path, query := query } =
+      scheme ++ bs "://" ++ authority ++ path ++ (match query with | some x => 63 :: x | none => []) := by
+  have : scheme.isEmpty = false := by cases scheme with | nil => exact absurd rfl hs | cons _ _ => rfl
+  simp only [RouteReq.url, this, Bool.false_eq_true, if_false]
+  have : bs "://" = [58] ++ bs "//" := by with_unfolding_all decide
+  rw [this]
+  simp only [List.append_assoc]
+  try rfl
+
+/-- with a PAC script, a host caught by neither wrapper is routed by what the script answers for
+    THIS request's URL and host — first entry of that answer -/
+theorem c05_pac_for_that_url {c : InstCfg} {s : UrlScript} (hs : c.script = some s) (q : RouteReq)
+    (hn : NotWrapped c.rc q.host) :
+    selectProxy (c.at q) q.host = pacAnswer (s.eval q.url q.host) := by
+  have hn' : NotWrapped (c.at q) q.host := by
+    unfold NotWrapped at hn ⊢
+    rw [at_directDomains, at_localhostDirect, at_localhostNames]
+    exact hn
+  rw [c05_pac_proxy (at_base_of_script hs q) hn', pacProxy_eq_pacAnswer]
+  rfl
+
+/-- the wrappers come first: a direct-domains match, or localhost in `direct` mode, goes direct
+    whatever the script would say for the URL (the script is not even consulted) -/
+theorem c05_wrappers_before_script (c : InstCfg) (q : RouteReq)
+    (h : (∃ rules, c.rc.directDomains = some rules ∧ domMatch rules q.host = true) ∨
+         (c.rc.localhostDirect = true ∧ isLocalhostNames c.rc.localhostNames q.host = true)) :
+    selectProxy (c.at q) q.host = .ok none := by
+  rcases h with ⟨rules, hd, hm⟩ | ⟨hl, hh⟩
+  · exact c05_direct_domains_direct (by rw [at_directDomains]; exact hd) hm
+  · exact c05_localhost_direct (by rw [at_localhostDirect]; exact hl) (by rw [at_localhostNames]; exact hh)
+
+/-- a script error for this URL (exception, non-string) fails this request — plain and CONNECT alike —
+    and nothing is dialled -/
+theorem c05_url_script_error_fails {c : InstCfg} {s : UrlScript} (hs : c.script = some s) (q : RouteReq)
+    (hn : NotWrapped c.rc q.host) (he : s.eval q.url q.host = .fail) : route c q = .error .pacScript := by
+  have hsel := c05_pac_for_that_url hs q hn
+  rw [he] at hsel
+  have hsel' : selectProxy (c.at q) (hostname q.urlHost) = .error .pacScript := hsel
+  unfold route
+  split
+  · unfold routeConnect; rw [hsel']
+  · unfold routeRequest; rw [hsel']
+
+/-- a malformed answer for this URL (first entry without a usable host:port) fails this request -/
+theorem c05_url_script_bad_entry_fails {c : InstCfg} {s : UrlScript} (hs : c.script = some s) (q : RouteReq)
+    (hn : NotWrapped c.rc q.host) {a : Bytes} (he : s.eval q.url q.host = .ok a)
+    (hascii : a.any (fun c => c ≥ 128) = false) (hp : pacFirst a = none) : route c q = .error .pacEntry := by
+  have hsel := c05_pac_for_that_url hs q hn
+  rw [he] at hsel
+  have hsel' : selectProxy (c.at q) (hostname q.urlHost) = .error .pacEntry := by
+    have : pacAnswer (.ok a) = .error .pacEntry := by simp [pacAnswer, hascii, hp]
+    rw [← this]; exact hsel
+  unfold route
+  split
+  · unfold routeConnect; rw [hsel']
+  · unfold routeRequest; rw [hsel']
+
+/-- two requests for which the script gives the same answer, with the same host, scheme and kind, are
+    routed alike — and nothing else of the request matters -/
+theorem c05_route_depends_on_answer_only {c : InstCfg} {s : UrlScript} (hs : c.script = some s) (q q' : RouteReq)
+    (hk : q.connect = q'.connect) (hsc : q.scheme = q'.scheme) (hh : q.urlHost = q'.urlHost)
+    (ha : s.eval q.url q.host = s.eval q'.url q'.host) : route c q = route c q' := by
+  have : c.at q = c.at q' := by unfold InstCfg.at; rw [hs]; simp only [ha]
+  unfold route
+  rw [hk, hsc, hh, this]
+
+def exScript : UrlScript :=
+  { rules := [⟨.urlGlob (bs "*/admin/*"), .ok (bs "PROXY proxyb.test:3129")⟩,
+              ⟨.urlPrefix (bs "https:"), .ok (bs "HTTPS proxyb.test:3129; DIRECT")⟩,
+              ⟨.and (.hostIs (bs "origin.test")) (.urlContains (bs "/broken/")), .fail⟩,
+              ⟨.urlContains (bs "?bad=1"), .ok (bs "PROXY proxya.test")⟩],
+    dflt := .ok (bs "PROXY proxya.test:3128") }
+
+def exInst : InstCfg := { rc := { base := .pac {} }, script := some exScript }
+
+def exReqs : List RouteReq :=
+  [{ scheme := bs "http", urlHost := bs "origin.test", path := bs "/index.html" },
+   { scheme := bs "http", urlHost := bs "origin.test", path := bs "/admin/users" },
+   { scheme := bs "https", urlHost := bs "origin.test", path := bs "/index.html" },
+   { scheme := bs "http", urlHost := bs "origin.test", path := bs "/broken/x" },
+   { scheme := bs "http", urlHost := bs "origin.test", path := bs "/q", query := some (bs "bad=1") },
+   { connect := true, urlHost := bs "origin.test:443" },
+   { scheme := bs "http", urlHost := bs "origin.test", path := bs "/index.html" }]
+
+-- seven requests to one host through one instance: each is routed by the answer for its own URL
+example : exScript.modelled = true ∧
+    runSeq exInst {} exReqs =
+      [.ok (.viaProxy .http (bs "proxya.test:3128")), .ok (.viaProxy .http (bs "proxyb.test:3129")),
+       .ok (.viaProxy .https (bs "proxyb.test:3129")), .error .pacScript, .error .pacEntry,
+       .ok (.viaProxy .http (bs "proxya.test:3128")), .ok (.viaProxy .http (bs "proxya.test:3128"))] := by
+  with_unfolding_all decide
+
+/-! ## F. Request sequences: the decision for the k-th request does not depend on the earlier ones -/
+
+/-- one proxy instance serving a list of requests decides each of them as if it were alone -/
+theorem c05_seq_pointwise (c : InstCfg) (st : InstState) (qs : List RouteReq) : runSeq c st qs = qs.map (route c) :=
+  runSeq_eq_map c st qs
+
+/-- history independence: whatever was served before (`pre`), from whatever pool state, and whatever
+    comes after, the request in position `pre.length` is sent where `route c q` says -/
+theorem c05_history_independent (c : InstCfg) (st : InstState) (pre post : List RouteReq) (q : RouteReq) :
+    (runSeq c st (pre ++ q :: post))[pre.length]? = some (route c q) := by
+  rw [runSeq_eq_map]
+  simp
+
+/-- the state a run starts from (how many resolvers the pool holds) is irrelevant, and so is any
+    prefix of earlier requests: the decisions for `qs` after `pre` are those for `qs` alone -/
+theorem c05_seq_prefix_irrelevant (c : InstCfg) (st st' : InstState) (pre qs : List RouteReq) :
+    (runSeq c st (pre ++ qs)).drop pre.length = runSeq c st' qs := by
+  rw [runSeq_eq_map, runSeq_eq_map]
+  simp
+
+/-- the same request repeated gets the same decision each time -/
+theorem c05_seq_repeat_stable (c : InstCfg) (st : InstState) (pre mid post : List RouteReq) (q : RouteReq) :
+    (runSeq c st (pre ++ q :: mid ++ q :: post))[pre.length]? =
+      (runSeq c st (pre ++ q :: mid ++ q :: post))[pre.length + 1 + mid.length]? := by
+  rw [runSeq_eq_map]
+  simp only [List.map_append, List.map_cons]
+  have h1 : (List.map (route c) pre ++ (route c q :: List.map (route c) mid ++ route c q :: List.map (route c) post))[pre.length]? = some (route c q) := by
+    simp
+  have h2 : (List.map (route c) pre ++ (route c q :: List.map (route c) mid ++ route c q :: List.map (route c) post))[pre.length + 1 + mid.length]? = some (route c q) := by
+    rw [List.getElem?_append_right (by simp; omega)]
+    simp only [List.length_map]
+    have : pre.length + 1 + mid.length - pre.length = mid.length + 1 := by omega
+    rw [this]
+    simp
+  simp only [List.append_assoc, List.cons_append] at h1 h2 ⊢
+  rw [h1, h2]
+
+/-- the pool is the only thing that changes, and only when there is a script to evaluate -/
+theorem c05_step_state (c : InstCfg) (st : InstState) (q : RouteReq) :
+    (step c st q).2 = route c q ∧ (c.script = none → (step c st q).1 = st) ∧
+    (step c st q).1.made ≤ st.made + 1 := by
+  refine ⟨rfl, ?_, ?_⟩
+  · intro h; simp [step, h]
+  · unfold step InstState.evaluate
+    cases c.script <;> simp <;> split <;> simp
+
+/-- serving answers through a cache keyed by `key` is the same as deciding each request afresh, for
+    every request sequence, exactly when every cached answer is right for every request with that
+    key.  (The proxy has no such cache; this says which caches would be harmless.) -/
+theorem c05_memo_sound_iff {β κ : Type} [DecidableEq κ] (key : RouteReq → κ) (keep : β → Bool) (f : RouteReq → β) :
+    (∀ qs, memoRun key keep f [] qs = qs.map f) ↔
+      (∀ q q', key q = key q' → keep (f q) = true → f q' = f q) := by
+  constructor
+  · intro h q q' hk hkeep
+    have := h [q, q']
+    simp only [memoRun, assoc, hkeep, if_true, hk, List.map_cons, List.map_nil, List.cons.injEq, and_true, true_and] at this
+    exact this.symm
+  · intro hs qs
+    exact memoRun_eq_map hs [] (by intro e he; cases he) qs
+
+/-- … and a cache of decisions per URL host (`u.Host`) is not harmless: for `exInst` the second
+    request to `origin.test` would be sent where the first one went, and a URL the script fails on
+    would be routed instead of failing -/
+theorem c05_host_memo_witness :
+    memoRun (fun q : RouteReq => q.urlHost) (fun d : Except RouteError Hop => d.toBool) (route exInst) [] (exReqs.take 4) =
+      [.ok (.viaProxy .http (bs "proxya.test:3128")), .ok (.viaProxy .http (bs "proxya.test:3128")),
+       .ok (.viaProxy .http (bs "proxya.test:3128")), .ok (.viaProxy .http (bs "proxya.test:3128"))] ∧
+    (exReqs.take 4).map (route exInst) =
+      [.ok (.viaProxy .http (bs "proxya.test:3128")), .ok (.viaProxy .http (bs "proxyb.test:3129")),
+       .ok (.viaProxy .https (bs "proxyb.test:3129")), .error .pacScript] := by
+  with_unfolding_all decide
+
+/-! ## G. Hosts-file aliases of loopback addresses are localhost -/
+
+/-- every alias is a localhost name, in any letter case of the request's host (aliases as the hosts
+    file spells them in lower case) -/
+theorem c05_alias_is_localhost {aliases : List Bytes} {host : Bytes} (h : lower host ∈ aliases) :
+    C05.isLocalhost aliases host = true ∧ C05.isLocalhost aliases (bs "localhost") = true := by
+  constructor
+  · unfold C05.isLocalhost isLocalhostNames hpLocalhost
+    have : (builtinLocalhost ++ aliases).contains (lower host) = true := by
+      simp only [List.contains_eq_mem, List.mem_append, decide_eq_true_eq]
+      exact Or.inr h
+    simp only [this, Bool.true_or]
+  · unfold C05.isLocalhost isLocalhostNames hpLocalhost
+    have h0 : lower (bs "localhost") = bs "localhost" := by with_unfolding_all decide
+    have : (builtinLocalhost ++ aliases).contains (lower (bs "localhost")) = true := by
+      rw [h0]
+      simp only [List.contains_eq_mem, List.mem_append, decide_eq_true_eq]
+      exact Or.inl (by unfold builtinLocalhost; exact List.mem_cons_self)
+    simp only [this, Bool.true_or]
+
+/-- mode `direct`: an alias is contacted directly, like `localhost`, whatever the upstream or PAC script -/
+theorem c05_alias_direct_mode {rc : RouteCfg} {aliases : List Bytes} (hn : rc.localhostNames = hpLocalhost aliases)
+    (hl : rc.localhostDirect = true) {host : Bytes} (h : lower host ∈ aliases) :
+    selectProxy rc host = .ok none ∧ selectProxy rc host = selectProxy rc (bs "localhost") := by
+  have ha := c05_alias_is_localhost (host := host) h
+  unfold C05.isLocalhost at ha
+  have h1 := c05_localhost_direct hl (host := host) (by rw [hn]; exact ha.1)
+  have h2 := c05_localhost_direct hl (host := bs "localhost") (by rw [hn]; exact ha.2)
+  exact ⟨h1, by rw [h1, h2]⟩
+
+/-- modes `allow` and `deny` do not touch the proxy function: the alias list plays no role in the
+    selection (in `deny` mode the request is refused before, below) -/
+theorem c05_alias_other_modes (rc : RouteCfg) (hl : rc.localhostDirect = false) (names : List Bytes) (host : Bytes) :
+    selectProxy rc host = selectProxy { rc with localhostNames := names } host := by
+  unfold selectProxy proxyFunc wrapDirectLocalhost
+  simp only [hl]
+  rfl
+
+/-- mode `deny`: a request for an alias is refused like one for `localhost` (403, nothing dialled) -/
+theorem c05_alias_deny_mode {cfg : Cfg} {aliases : List Bytes} (hn : cfg.localhostNames = hpLocalhost aliases)
+    (hd : cfg.denyLocalhost = true) (ht : cfg.timeAllowed = true) (hb : cfg.basicAuth = none)
+    (g : GoReq) (h : lower (hostname g.urlHost) ∈ aliases) : securityCheck cfg g = some .localhost := by
+  have ha := (c05_alias_is_localhost (host := hostname g.urlHost) h).1
+  unfold C05.isLocalhost at ha
+  unfold securityCheck
+  simp only [ht, hb, hd, Req.isLocalhost, hn, ha]
+  simp
+
+example : C05.isLocalhost [bs "runsc", bs "vm"] (bs "VM") = true ∧ C05.isLocalhost [bs "runsc", bs "vm"] (bs "vmx") = false ∧
+    C05.isLocalhost [] (bs "vm") = false ∧ C05.isLocalhost [] (bs "127.0.0.9") = true := by
+  with_unfolding_all decide
 
 end C05
 end FwdVerif
